@@ -7,6 +7,7 @@ import RosedVerif.Model.GenEq.Block
 import RosedVerif.Model.GenEq.Wrap
 import RosedVerif.Model.GenEq.Paras
 import RosedVerif.Model.GenEq.InstA
+import RosedVerif.Model.Placeholder
 set_option linter.unusedVariables false
 set_option linter.unusedSectionVars false
 set_option linter.unusedSimpArgs false
@@ -15,8 +16,36 @@ open RosedVerif
 
 variable {α : Type} [DecidableEq α] (cx : Ctx α)
 
+/-- the loop `for strings.ContainsRune(sep, c) { c++ }`: with one unit of fuel more than the hand
+model's search has tests it returns what the search returns, provided that is outside `sep` -/
+theorem whileM_phSearch (sep : List α) (cond : α → R Bool) (body : α → R α)
+    (hc : ∀ c, cond c = pure (decide (c ∈ sep))) (hb : ∀ c, body c = pure (cx.phNext c)) :
+    ∀ (n : Nat) (c : α), phSearch cx sep n c ∉ sep →
+      Go.whileM (n + 1) cond body c = pure (phSearch cx sep n c) := by
+  intro n
+  induction n with
+  | zero =>
+    intro c hf
+    simp only [phSearch] at hf
+    simp only [Go.whileM, hc, pure_bind, hf, decide_false, Bool.false_eq_true, if_false, phSearch]
+  | succ n ih =>
+    intro c hf
+    rw [Go.whileM, hc, pure_bind]
+    by_cases hm : c ∈ sep
+    · simp only [phSearch, hm, if_true] at hf ⊢
+      simp only [decide_true, if_true, hb, pure_bind]
+      exact ih _ hf
+    · simp only [phSearch, hm, if_false, decide_false, Bool.false_eq_true]
+
+/-- … at the fuel and the start value of Editor.WrapOpts, in a context where the search is known to
+end outside the separator (`Ctx.PhFresh`; instance A: `phFresh_cxA`) -/
+theorem whileM_placeholder (hph : cx.PhFresh) (sep : List α) (cond : α → R Bool) (body : α → R α)
+    (hc : ∀ c, cond c = pure (decide (c ∈ sep))) (hb : ∀ c, body c = pure (cx.phNext c)) :
+    Go.whileM (sep.length + 1) cond body cx.phA = pure (cx.placeholder sep) :=
+  whileM_phSearch cx sep cond body hc hb sep.length cx.phA (hph sep)
+
 theorem editorWrapOpts_regenerated (h : Gen.Code.editorWrapOpts_extracted = true)
-    (hd : DefaultsOk cx) (hpos : ∀ a, 0 < cx.blen a) (ed : Editor α) (width : Int)
+    (hd : DefaultsOk cx) (hpos : ∀ a, 0 < cx.blen a) (hph : cx.PhFresh) (ed : Editor α) (width : Int)
     (o : Options α) : Gen.Code.editorWrapOpts cx ed width o = ed.wrapOpts cx width o := by
   first
     | exact absurd h (by decide)
@@ -25,13 +54,16 @@ theorem editorWrapOpts_regenerated (h : Gen.Code.editorWrapOpts_extracted = true
          blockJoin_regenerated cx (by decide), editorApplyGParagraphsOpts_regenerated cx (by decide) hd hpos]
        go_norm
        simp only [ite_pure, pure_bind, map_eq_pure_bind, bind_assoc]
+       -- the placeholder loop: condition and body restated over the model, loop = the model's search
+       simp (disch := intro c; first | rfl | (go_norm; go_close)) only [whileM_placeholder cx hph, pure_bind,
+         Go.stringOfRune]
        split
        · simp only [bind_pure]
          all_goals
            (congr 1
             all_goals
               (funext i para pre suf
-               simp only [Go.gsLen, Go.gsSub, Go.gsAdd, Go.gemRepeatStr, Go.stringsHasSuffix, ite_pure, pure_bind, bind_assoc,
+               simp only [Go.gsLen, Go.gsSub, Go.gsAdd, Go.gemRepeatStr, Go.stringsHasSuffix, Go.stringOfRune, ite_pure, pure_bind, bind_assoc,
                  map_eq_pure_bind, List.append_assoc]
                refine bind_congr (m := R) fun ls => ?_
                go_close))
@@ -39,15 +71,15 @@ theorem editorWrapOpts_regenerated (h : Gen.Code.editorWrapOpts_extracted = true
          go_close)
 
 theorem editorWrap_regenerated (h : Gen.Code.editorWrap_extracted = true)
-    (hd : DefaultsOk cx) (hpos : ∀ a, 0 < cx.blen a) (ed : Editor α) (width : Int) :
+    (hd : DefaultsOk cx) (hpos : ∀ a, 0 < cx.blen a) (hph : cx.PhFresh) (ed : Editor α) (width : Int) :
     Gen.Code.editorWrap cx ed width = ed.wrapOpts cx width ed.opts := by
   first
     | exact absurd h (by decide)
     | (unfold Gen.Code.editorWrap
-       simp only [editorWrapOpts_regenerated cx (by decide) hd hpos, bind_pure])
+       simp only [editorWrapOpts_regenerated cx (by decide) hd hpos hph, bind_pure])
 
 theorem editorWrapOpts_cxA (h : Gen.Code.editorWrapOpts_extracted = true) (ed : Editor Int) (width : Int) (o : Options Int) :
     Gen.Code.editorWrapOpts cxA ed width o = ed.wrapOpts cxA width o :=
-  editorWrapOpts_regenerated cxA h defaultsOk_cxA cxA_WF.2 ed width o
+  editorWrapOpts_regenerated cxA h defaultsOk_cxA cxA_WF.2 phFresh_cxA ed width o
 
 end RosedVerif.GenCodeEq
